@@ -28,6 +28,7 @@ func (st *State) lockOp(fr *Frame, m Val, mode string, acquire bool, pos token.P
 			return false
 		}
 		st.locks[id] = mode
+		st.lockCount[id]++
 		st.onLockAcquired(fr, m, id, mode, pos)
 		return true
 	}
@@ -156,6 +157,7 @@ func (st *State) onLockReleasing(fr *Frame, m Val, id, mode string, pos token.Po
 // accessed while that mutex is held (W for writes, R or W for reads), unless the object is still private
 // to this call (allocated here and not yet published).
 func (st *State) guardAccess(fr *Frame, p *Ptr, write bool, pos token.Pos) {
+	st.guardClasses(fr, p, write, pos)
 	if p.Kind != PObj || p.Path == "" {
 		return
 	}
@@ -194,7 +196,97 @@ func (st *State) guardAccess(fr *Frame, p *Ptr, write bool, pos token.Pos) {
 		}
 	}
 }
-func (st *State) guardAtomic(fr *Frame, p *Ptr, write bool, pos token.Pos) {}
+
+// fieldClass returns the declared class of a field path of a type ("atomic", "immutable" or "").
+func (st *State) fieldClass(rootT types.Type, path string) (string, *Contract) {
+	e := st.e
+	tn := e.P.relType(rootT)
+	c := e.contracts["type "+tn]
+	if c == nil {
+		return "", nil
+	}
+	f := strings.TrimPrefix(path, ".")
+	top := f
+	if i := strings.Index(f, "."); i >= 0 {
+		top = f[:i]
+	}
+	for _, a := range c.AtomicFields {
+		if a == top {
+			return "atomic", c
+		}
+	}
+	for _, a := range c.ImmutableFields {
+		if a == top {
+			return "immutable", c
+		}
+	}
+	return "", c
+}
+
+// guardAtomic: an access through sync/atomic. Fine for atomic fields; an atomic LOAD of an immutable field is fine
+// too; an atomic store to an immutable field of a shared object is a write like any other.
+func (st *State) guardAtomic(fr *Frame, p *Ptr, write bool, pos token.Pos) {
+	if p.Kind != PObj || p.Path == "" || st.private[p.Root] {
+		return
+	}
+	class, c := st.fieldClass(p.RootT, p.Path)
+	if class == "immutable" && write {
+		st.oblige("guard", fmt.Sprintf("%s%s:write-after-publish", st.e.P.relType(p.RootT), p.Path), c.Props, "false", pos)
+	}
+	if class == "atomic" {
+		st.oblige("guard", fmt.Sprintf("%s%s:atomic", st.e.P.relType(p.RootT), p.Path), c.Props, "true", pos)
+	}
+}
+
+// guardClasses: plain (non-atomic) accesses versus the declared field classes.
+func (st *State) guardClasses(fr *Frame, p *Ptr, write bool, pos token.Pos) {
+	if p.Kind != PObj || st.private[p.Root] {
+		return
+	}
+	e := st.e
+	tn := e.P.relType(p.RootT)
+	c := e.contracts["type "+tn]
+	if c == nil {
+		return
+	}
+	check := func(path string) {
+		class, _ := st.fieldClass(p.RootT, path)
+		switch {
+		case class == "atomic":
+			rw := "read"
+			if write {
+				rw = "write"
+			}
+			st.oblige("guard", fmt.Sprintf("%s%s:plain-%s-of-atomic", tn, path, rw), c.Props, "false", pos)
+		case class == "immutable" && write:
+			st.oblige("guard", fmt.Sprintf("%s%s:write-after-publish", tn, path), c.Props, "false", pos)
+		case class == "immutable":
+			st.oblige("guard", fmt.Sprintf("%s%s:read", tn, path), c.Props, "true", pos)
+		}
+	}
+	if p.Path != "" {
+		check(p.Path)
+		return
+	}
+	// whole-struct access (e.g. the copy made by calling a value-receiver method): touches every field
+	if stt, ok := p.RootT.Underlying().(*types.Struct); ok {
+		for i := 0; i < stt.NumFields(); i++ {
+			check("." + stt.Field(i).Name())
+		}
+	}
+}
+
+// publish: a reference stored into shared memory stops being private to this call.
+func (st *State) publish(v Val, destRoot string) {
+	if st.private[destRoot] {
+		return
+	}
+	for _, t := range v.C {
+		if st.private[t] {
+			delete(st.private, t)
+		}
+	}
+}
 
 // noteMapOwner remembers which mutex guards a map that was just read out of a guarded field.
 func (st *State) noteMapOwner(p *Ptr, v Val) {
@@ -435,6 +527,20 @@ func (st *State) onFunctionExit(fr *Frame, pos token.Pos) {
 	// every lock acquired by the function is released on return
 	for id := range st.locks {
 		st.oblige("lock", "held-at-return:"+id[:indexAt(id)], st.e.curProps, "false", pos)
+	}
+	// atomic-section discipline (C08): a single-key operation touches the shared map in at most one critical
+	// section (one bucket-lock acquisition, or one sync.Map primitive), which is its linearization point
+	if fr.contract != nil && fr.contract.Flags["onesection"] != "" {
+		goal := "true"
+		for _, n := range st.lockCount {
+			if n > 1 {
+				goal = "false"
+			}
+		}
+		if st.smOps > 1 {
+			goal = "false"
+		}
+		st.oblige("atomic", "one-section", []string{"C08"}, goal, pos)
 	}
 	// every build token obtained (or owned at entry) has been consumed or handed to a goroutine
 	leak := "true"
